@@ -717,6 +717,7 @@ func genNonEmptyID(r *RNG) string {
 }
 
 func (m c06) Directed(c *Ctx) {
+	sameNameCheck(c, "C06")
 	c.Name = "exhaustive-small-ints-direct"
 	for _, k := range []int{KInt8, KUint8, KInt16, KUint16} {
 		for _, null := range []bool{false, true} {
